@@ -56,8 +56,39 @@ def float_src(num, pw):
 
 # ----------------------------------------------------------------------------- rendering
 
+# "full": every operator application parenthesised (the tree is unambiguous whatever the parser's table says);
+# "min": only the parentheses docs/grammar.md requires (precedence and left associativity carry the rest)
+PAREN_MODE = "full"
+PREC = {"||": 1, "&&": 2, "|": 3, "^": 4, "&": 5, "==": 6, "!=": 6, "<": 7, ">": 7, "<=": 7, ">=": 7, "+": 8, "-": 8, "*": 9, "/": 9, "%": 9}
+
+
+def _prec(e):
+    if e[0] == "bin":
+        return PREC[e[1]]
+    if e[0] in ("un", "cast"):
+        return 10
+    if e[0] in ("asg", "fset", "sfset"):
+        return 0
+    if e[0] in ("i", "l", "f") and str(e[1]).startswith("-"):
+        return 10
+    return 11
+
+
+def _min(e, need, right=False):
+    """render e where the context needs binding power `need` (right operand of a left-associative operator: strictly more)"""
+    t = e_src(e)
+    pr = _prec(e)
+    if pr < need or (right and pr == need) or (need == 10 and pr == 10):
+        return "(%s)" % t
+    return t
+
+
 def e_src(e):
     k = e[0]
+    if PAREN_MODE == "min" and k == "bin":
+        return "%s %s %s" % (_min(e[2], PREC[e[1]]), e[1], _min(e[3], PREC[e[1]], True))
+    if PAREN_MODE == "min" and k == "un":
+        return "%s%s" % (e[1], _min(e[2], 10))
     if k == "i":
         return str(e[1])
     if k == "l":
@@ -429,6 +460,16 @@ class Gen:
             return ("un", "-", self.expr(t, env, d - 1, fidx))
         if t == "bool":
             k = r.random()
+            if r.random() < 0.25:
+                # a chain mixing && and || (and comparisons) over leaves, in a random tree shape: with minimal
+                # parentheses its value depends on the documented precedence and associativity
+                self.note("logic-chain")
+                leaves = [self.leaf(r.choice(["bool", "bool", "bit"]), env) if r.random() < 0.7 else
+                          ("bin", r.choice(["<", ">=", "=="]), self.leaf("int", env), self.leaf("int", env)) for _ in range(r.randint(3, 4))]
+                while len(leaves) > 1:
+                    j = r.randrange(len(leaves) - 1)
+                    leaves[j:j + 2] = [("bin", r.choice(["&&", "||"]), leaves[j], leaves[j + 1])]
+                return leaves[0]
             if k < 0.4:
                 lt = r.choice(["int", "long", "float"])
                 rt = r.choice(["int", "long", "float"])
